@@ -94,6 +94,9 @@ def build_level(l, K):
         return build_valq(l[1], K)
     if l[0] == "tuple":
         return tuple([None if l[1] is None else build_valq(l[1], K)] + [build_valq(a, K) for a in l[2]])
+    if l[0] == "tuple-entry":
+        # (name, <entry query>): a single attribute element that is itself an entry query (all_, any_, child_query, &, |, ~) applies to the node
+        return (None if l[1] is None else build_valq(l[1], K), build_entryq(l[2], K))
     return build_entryq(l[1], K)
 
 
@@ -155,6 +158,9 @@ class Ref(object):
                 return nm
             at = self.OR(*([False] + [self.OR(*[self.valq(a, v) for a in l[2]]) for v in node["attrs"]]))
             return self.AND(nm, at)
+        if l[0] == "tuple-entry":
+            nm = True if l[1] is None else self.valq(l[1], node["name"])
+            return self.AND(nm, self.entryq(l[2], node))
         return self.entryq(l[1], node)
 
 
@@ -285,6 +291,9 @@ if not NATIVE:
                 return ["tuple", nm, [self.valq(tag + "ta%d" % i, -1) for i in range(na)]]
             if k == 3:
                 return ["tuple", ["lit", self.const()], [["lit", self.const()] for i in range(2)]]
+            if k == 6:
+                nm = None if en.flag(tag + "anyname") else ["lit", self.const()]
+                return ["tuple-entry", nm, self.entryq(tag + "te", 1)]
             return ["entry", self.entryq(tag + "e", depth)]
 
     def _AND(*xs):
@@ -423,7 +432,7 @@ def obligations(tier):
                            "query levels": "<= 2", "query forms": "any / name literal / (name, attr, attr) literal tuple",
                            "options": "%s x combiner-style parentless documents" % (OPTIONS,)},
                    outside=outside, encoded=enc[:15], budget_s=900 if thorough else 100, replay="query", check_sample=True),
-        Obligation("O1-predicates", make_o1([[-1, 0, -1]], 1, 2 if thorough else 1, forms=(1, 2, 3, 4), max_attrs=2, options=False), ["exact-matches"],
+        Obligation("O1-predicates", make_o1([[-1, 0, -1]], 1, 2 if thorough else 1, forms=(1, 2, 3, 4, 6), max_attrs=2, options=False), ["exact-matches"],
                    desc="one-level select with every query form against the reference predicate semantics",
                    bounds={"nodes": "3 (two top-level candidates, one child)", "attributes per node": "0-2", "query forms": "name literal/callable/Boolean, tuples with 1-2 attribute alternatives, "
                            "any_/all_/child_query and &,|,~ combinations (depth %d), negated Boolean terms, raising predicates as whole name/attribute queries" % (2 if thorough else 1)},
